@@ -102,15 +102,21 @@ def execute(case):
                 orig_write = store.write_blocks_to_disk
                 state = {"fired": False}
 
+                after = bool(case.get("interleave_after"))
+
                 def write_and_interleave(blocks):
-                    if not state["fired"]:
-                        state["fired"] = True
+                    fire = not state["fired"]
+                    state["fired"] = True
+                    r = None
+                    if fire and after:
+                        r = orig_write(blocks)           # ... the other thread arrives when the rows are already written
+                    if fire:
                         t = threading.Thread(target=lambda: store.add_block_to_buffer(b.to_sk_block(late)))
                         t.daemon = True
                         t.start()
                         t.join(0.1)                      # bounded wait only; correctness never depends on who wins
                         state["thread"] = t
-                    return orig_write(blocks)
+                    return r if (fire and after) else orig_write(blocks)
 
                 store.write_blocks_to_disk = write_and_interleave
                 racer = (late, state, orig_write)
@@ -233,7 +239,7 @@ def run(shard, tier, seed):
             k = min(left, rnd.choice([1, 1, 2, 3, 5]))
             batches.append(k)
             left -= k
-        case.update(batches=batches, via=via, form=form, interleave=rnd.random() < 0.3, resave=rnd.random() < 0.4)
+        case.update(batches=batches, via=via, form=form, interleave=rnd.random() < 0.35, interleave_after=rnd.random() < 0.5, resave=rnd.random() < 0.4)
         try:
             fails, info = execute(case)
         except env.HarnessError as e:
